@@ -93,7 +93,7 @@ static void add_remaining_fstack(struct uftrace_data *handle, struct rb_root *ro
 		last_time = task->rstack->time;
 
 		if (handle->time_range.stop)
-			last_time = handle->time_range.stop;
+			last_time = time_range_stop(&handle->time_range);
 
 		while (--task->stack_count >= 0) {
 			fstack = fstack_get(task, task->stack_count);
@@ -295,7 +295,7 @@ static void add_remaining_task_fstack(struct uftrace_data *handle, struct rb_roo
 		last_time = task->timestamp_last;
 
 		if (handle->time_range.stop)
-			last_time = handle->time_range.stop;
+			last_time = time_range_stop(&handle->time_range);
 
 		while (--task->stack_count >= 0) {
 			fstack = fstack_get(task, task->stack_count);
